@@ -200,7 +200,7 @@ def run(ck):
         conf = b'maildir "%s" {\n match all label %s pass\n match all add-header %s %s\n}\n' % (
             md.encode(), mdrun.conf_quote(label), mdrun.conf_quote(hk), mdrun.conf_quote(hv))
         two_labels = None
-        if round_ % 3 == 2 and hk.lower() != b'x-label':
+        if round_ % 3 == 2:
             # two label actions (in one rule, or in two rules joined by pass) on messages that may carry several X-Label fields
             two_labels = (rng.choice([b'a', b'first one']), rng.choice([b'b', b'second']))
             form = rng.randrange(2)
